@@ -337,7 +337,10 @@ class Loops:
                         out.append(r)
                 return self.build(it, kind, out, isdict)
             filtered = bool(gen.ifs)
-            if filtered and (isdict or kind not in ('list', 'tuple')):
+            keyed = (isdict and isinstance(itv, PV) and itv.kind == 'dictitems' and isinstance(gen.target, ast.Tuple)
+                     and len(gen.target.elts) == 2 and isinstance(gen.target.elts[0], ast.Name)
+                     and isinstance(node.key, ast.Name) and node.key.id == gen.target.elts[0].id)
+            if filtered and not keyed and (isdict or kind not in ('list', 'tuple')):
                 raise Unsupported(f'filtered dict/set comprehension over a sequence of symbolic length@{node.lineno}')
             idx = it.fresh('ci', IntS)
             rng = z3.And(0 <= idx, idx < ln)
@@ -366,6 +369,8 @@ class Loops:
                 for p in terms[:-1]:
                     it.assume(p)
                 raise PyRaise(SV(terms[-1], excv.ty))
+            if keyed:
+                return self.keyed_dict_summary(it, node, itv, ln, idx, normal, skipped)
             if filtered:
                 # the result holds exactly the mapped elements that pass the filter (their order is kept by
                 # python; only membership and the length bound are stated here)
@@ -414,6 +419,33 @@ class Loops:
                     del it.env[nme]
             for nme, v in saved.items():
                 it.env[nme] = v
+
+    def keyed_dict_summary(self, it, node, itv, ln, idx, normal, skipped):
+        """{k: f(v) for k, v in d.items() if c(k, v)}: the result has exactly the keys of d that pass the filter,
+        each mapped to f of its value (the keys of a dict are pairwise distinct, so no entry overwrites another)"""
+        d = it.refine(itv.data.t)
+        keys = V.dkeys(d)
+        r = it.fresh('dcomp', Val)
+        it.assume_axiom(V.is_DictV(r))
+        it.learn(V.is_DictV(r))
+        r = it.refine(r)
+        b = z3.Int('b!dc%d' % it.counter)
+        kb = vals.ks(keys[b])
+        conj = []
+        for _, kv, pcs, fresh in normal:
+            terms = self.skolemize(it, pcs + [it.as_val(kv[1])], fresh, idx, b)
+            conj.append(z3.Implies(z3.And(*terms[:-1]), z3.And(z3.Select(V.dhas(r), kb), z3.Select(V.dmap(r), kb) == terms[-1])))
+        for _, _none, pcs, fresh in skipped:
+            terms = self.skolemize(it, pcs + [V.NoneV], fresh, idx, b)
+            conj.append(z3.Implies(z3.And(*terms[:-1]), z3.Not(z3.Select(V.dhas(r), kb))))
+        it.assume(z3.ForAll([b], z3.Implies(z3.And(0 <= b, b < ln), z3.And(*conj)), patterns=[keys[b]]), summary=True)
+        sx = z3.String('s!dc%d' % it.counter)
+        it.assume(z3.ForAll([sx], z3.Implies(z3.Select(V.dhas(r), sx), z3.Select(V.dhas(d), sx))), summary=True)
+        it.assume(z3.Length(V.dkeys(r)) <= ln)
+        it.assume(vals.wf(r, 1), summary=True)
+        tys = {kv[1].ty for _, kv, _, _ in normal if isinstance(kv[1], SV)}
+        ty = f'dict:{list(tys)[0]}' if len(tys) == 1 and None not in tys else None
+        return SV(r, ty)
 
     def dict_summary(self, it, node, seq, idx, b, normal, isdict):
         """{k: v for ...} / dict((k, v) for ...) over a sequence of symbolic length
